@@ -103,6 +103,26 @@ func Main() {
 		fmt.Fprintln(os.Stderr, "unknown property", *prop)
 		os.Exit(3)
 	}
+	if strings.HasPrefix(*phase, CompanyOnly) {
+		// the battery alone: every case is one batch of overlapping executions (both build flavours)
+		e = &Engine{ID: *prop, Run: func(c *Case) {
+			if CompanyBatch == nil {
+				c.Inconclusive("no-company", "", nil)
+				return
+			}
+			rep := CompanyBatch(CompanyOnlyGoroutines, CompanyOnlyRounds, CaseSeed(c), c.W.Prop)
+			c.Events(rep.Runs)
+			c.Count("company_only_executions", rep.Runs)
+			c.Count("company_only_batches", 1)
+			for item, n := range rep.PerItem {
+				c.Count("company_item:"+item, n)
+			}
+			c.Eval(fmt.Sprintf("company-only|%d", c.Index), rep.Runs > 0)
+			for _, m := range rep.Mismatches {
+				c.Violation("company:"+m.Item, m.Detail, map[string]interface{}{"company_item": m.Item, "source": m.Src})
+			}
+		}}
+	}
 	if *plan {
 		p := e.Plan(*tier)
 		p.Property = e.ID
@@ -190,6 +210,21 @@ func RegisterChild(name string, f func(args []string)) { children[name] = f }
 // CompanySuffix marks a phase whose cases are those of the base phase, run while
 // background goroutines of the same process execute other programs.
 const CompanySuffix = "+company"
+
+// CompanyOnly is the name (prefix) of the phases in which the battery runs alone: batches of
+// CompanyOnlyGoroutines goroutines, CompanyOnlyRounds programs each, released together.
+const CompanyOnly = "company-only"
+
+const (
+	CompanyOnlyGoroutines = 8
+	CompanyOnlyRounds     = 150
+)
+
+// CompanyBatch is set by cmd/vworker: k goroutines execute rounds programs each and return.
+var CompanyBatch func(k, rounds int, seed int64, prop string) CompanyReport
+
+// CaseSeed returns a seed value of the case's PRNG stream.
+func CaseSeed(c *Case) int64 { return c.Rng.Int63() }
 
 // CompanyMismatch is one self-check of the company that failed.
 type CompanyMismatch struct {
